@@ -263,6 +263,29 @@ def build_pool(seed, tier):
         groups.append(members)
         calls.extend(members)
     groups.extend(subclass_groups)  # "define a dialect deriving from P, then generate for P" as focus groups of their own
+    # Settings groups: ONE dialect class under several instance settings, the same mixed-case identifiers through every path that
+    # consults the settings (safe quoting, qualification, star expansion, normalisation). State keyed by class, name or text alone
+    # leaks between the variants.
+    strategies = ["lowercase", "uppercase", "case_sensitive", "case_insensitive"]
+    classes = ["snowflake", "postgres", "duckdb", "bigquery", "mysql", "oracle", "tsql", "spark", "clickhouse", "presto", "redshift", "sqlite"]
+    for _si in range(6 if tier == "quick" else 24):
+        dcls = classes[(_si + off) % len(classes)]
+        variants = [dcls] + ["%s, normalization_strategy=%s" % (dcls, st_) for st_ in rng.sample(strategies, 2)]
+        members = []
+        for q in rng.sample(corpus.MIXED_CASE, 3):
+            for v in variants:
+                members.append({"op": "generate", "sql": q, "read": None, "write": v, "opts": {"identify": "safe"}})
+                k = rng.randrange(4)
+                if k == 0:
+                    members.append({"op": "qualify", "sql": q, "read": v, "schema": "xyz"})
+                elif k == 1:
+                    members.append({"op": "optimize", "sql": q, "read": v, "schema": "xyz", "pretty": False})
+                elif k == 2:
+                    members.append({"op": "qualify_raw", "sql": q, "read": v})
+                else:
+                    members.append({"op": "generate", "sql": q, "read": v, "write": v, "opts": {}})
+        groups.append(members)
+        calls.extend(members)
     _POOL[key] = calls
     _GROUPS[key] = groups
     return calls
